@@ -159,9 +159,12 @@ def plan(ctx):
             units += [("arrays", 4, i, j, 4) for i in range(len(A40)) for j in range(4)]
     units += [("shared", d, i, 4) for d in DRAFTS for i in range(4)]
     units += [("ordered", d, i, 4) for d in DRAFTS for i in range(4)]
+    units += [("mutated", d, i, 2) for d in DRAFTS for i in range(2)]
     return {
         "units": units,
-        "rule": ("O: every ordered pair of the 40-value sub-universe with the objects of either or both sides given "
+        "rule": ("M: for every ordered pair of the 40-value sub-universe one array object [a, b] and one validator: "
+                 "validated as built, after the second element was replaced in place by a copy of the first, after "
+                 "it was restored, after the array was reversed in place.  O: every ordered pair of the 40-value sub-universe with the objects of either or both sides given "
                  "as collections.OrderedDict (what json.load(object_pairs_hook=OrderedDict) produces), member order "
                  "kept or reversed, const / enum / uniqueItems.  S: one long-lived validator object per draft is handed a NEW schema object for every call "
                  "(is_valid(instance, schema)), for every ordered pair of the 40-value sub-universe and the four "
@@ -668,9 +671,51 @@ def run_ordered(unit, ctx):
             "outcomes": outcomes, "counters": {"violating_executions": bag.total, "ordered_dict_cases": ev}}
 
 
+def run_mutated(unit, ctx):
+    """The caller keeps ONE array object and one validator and edits the array in place between validations
+    ([a, b] -> [a, a'] -> [a, b]): every verdict is about what the array holds at that moment."""
+    _, d, shard, nsh = unit
+    w = CLS[d]({"uniqueItems": True})
+    bag = Bag()
+    ev = nt = 0
+    outcomes = {}
+    n = len(A40)
+    for ia in range(shard, n, nsh):
+        a, ka = A40[ia], KA40[ia]
+        for ib in range(n):
+            b = A40[ib]
+            eq = ka == KA40[ib]
+            arr = [fresh_copy(a), fresh_copy(b)]
+            steps = [("as-built", not eq)]
+            g = [observe(w, arr)]
+            arr[1] = fresh_copy(a)
+            steps.append(("second:=copy-of-first", False))
+            g.append(observe(w, arr))
+            arr[1] = fresh_copy(b)
+            steps.append(("second-restored", not eq))
+            g.append(observe(w, arr))
+            arr.reverse()
+            steps.append(("reversed-in-place", not eq))
+            g.append(observe(w, arr))
+            for (name, exp), got in zip(steps, g):
+                ev += 1
+                nt += family(a) == family(b)
+                oc = "mutated:%s:%s" % (name, "unique" if exp else "duplicate")
+                outcomes[oc] = outcomes.get(oc, 0) + 1
+                if got is not exp:
+                    bag.add({"signature": "C08|array-edited-in-place|%s|%s" % (name, kind_of("uniqueItems", got, exp)),
+                             "size": size_of(a, b),
+                             "case": {"draft": d, "form": "mutated", "a": a, "b": b, "step": name},
+                             "detail": {"observed": got, "expected_valid": exp, "verdicts_in_order": g}})
+    return {"evaluations": ev, "nontrivial": nt, "violations": bag.all(), "samples": [],
+            "outcomes": outcomes, "counters": {"violating_executions": bag.total, "in_place_edit_cases": ev}}
+
+
 def run_unit(unit, ctx):
     if unit[0] == "pairs":
         return run_pairs(unit, ctx)
+    if unit[0] == "mutated":
+        return run_mutated(unit, ctx)
     if unit[0] == "ordered":
         return run_ordered(unit, ctx)
     if unit[0] == "shared":
@@ -683,6 +728,20 @@ def replay(case, ctx):
     if case["form"] == "check_schema":
         ok = check_schema_ok(d, case["schema"])
         return {"reproduced": not ok, "check_schema_accepts": ok}
+    if case["form"] == "mutated":
+        w = CLS[d]({"uniqueItems": True})
+        a, b = case["a"], case["b"]
+        eq = equality.jeq(a, b)
+        arr = [fresh_copy(a), fresh_copy(b)]
+        seq = [("as-built", not eq, observe(w, arr))]
+        arr[1] = fresh_copy(a)
+        seq.append(("second:=copy-of-first", False, observe(w, arr)))
+        arr[1] = fresh_copy(b)
+        seq.append(("second-restored", not eq, observe(w, arr)))
+        arr.reverse()
+        seq.append(("reversed-in-place", not eq, observe(w, arr)))
+        bad = [s for s in seq if s[2] is not s[1]]
+        return {"reproduced": bool(bad), "steps": seq}
     if case["form"] == "ordered":
         a2 = as_ordered(case["a"], case["reversed"]) if case["a_ordered"] else case["a"]
         b2 = as_ordered(case["b"], False) if case["b_ordered"] else case["b"]
